@@ -31,7 +31,42 @@ var c17EntityOnly = []string{"Entity", "Record", "Extension"}
 var c17Prims = []string{"String", "Long", "Bool", "Boolean"}
 var c17Exts = []string{"ipaddr", "decimal", "datetime", "duration"}
 
-var c17NsPool = []string{"NS", "A", "A::B", "A::B::C", "Z9::_x", "namespace", "entity::type", "App"}
+// namespace names are built from segments: plain ones, and every identifier that is a keyword of
+// the schema grammar or the name of a built-in type (all of them ordinary identifiers for the
+// lexer; the pinned parser accepts each as a namespace segment - probed). Reserved Cedar keywords
+// (in, is, if, then, else, like, has, true, false, __cedar) are rejected by the parser and excluded.
+var c17NsPlainSeg = []string{"NS", "A", "B", "C", "App", "Z9", "_x", "M"}
+var c17NsKeySeg = func() []string {
+	out := append([]string{"Set", "Set", "Action"}, c17Kwish...)
+	out = append(out, c17EntityOnly...)
+	out = append(out, c17Prims...)
+	return append(out, c17Exts...)
+}()
+
+func c17NsSegClass(seg string) string {
+	switch {
+	case seg == "Set":
+		return "Set"
+	case seg == "Action" || c17contains(c17Kwish, seg):
+		return "schema-keyword"
+	case c17contains(c17EntityOnly, seg) || c17contains(c17Prims, seg) || c17contains(c17Exts, seg):
+		return "builtin-name"
+	}
+	return ""
+}
+
+func c17GenNsName(r *mon.Rand) string {
+	n := []int{1, 1, 1, 2, 2, 3}[r.Intn(6)]
+	segs := make([]string, n)
+	for i := range segs {
+		if r.P(0.3) {
+			segs[i] = mon.Pick(r, c17NsKeySeg)
+		} else {
+			segs[i] = mon.Pick(r, c17NsPlainSeg)
+		}
+	}
+	return strings.Join(segs, "::")
+}
 
 var c17AnnoKeys = []string{"doc", "a", "b", "_k", "K9", "in", "if", "is", "has", "like", "true", "entity", "__cedar"}
 
@@ -296,9 +331,11 @@ func (g *c17g) actRef(from string, to c17ref) ast.ParentRef {
 func c17Gen(r *mon.Rand, cfg c17cfg) *ast.Schema {
 	g := &c17g{r: r, cfg: cfg}
 	nss := []string{""}
-	perm := r.Perm(len(c17NsPool))
 	for i := []int{0, 1, 1, 2, 2, 3}[r.Intn(6)]; i > 0; i-- {
-		nss = append(nss, c17NsPool[perm[i]])
+		name := c17GenNsName(r)
+		if !c17contains(nss, name) {
+			nss = append(nss, name)
+		}
 	}
 	type plan struct {
 		ns                      string
@@ -981,10 +1018,16 @@ func c17Features(s *ast.Schema) []string {
 			if t == "Set" {
 				f["ref-spelled-Set"] = true
 			}
+			if strings.Contains(string(t), "::") {
+				f["qualified-ref-in-type-position"] = true
+			}
 		case ast.TypeRef:
 			f["typeref"] = true
 			if t == "Set" {
 				f["ref-spelled-Set"] = true
+			}
+			if strings.Contains(string(t), "::") && !strings.HasPrefix(string(t), "__cedar::") {
+				f["qualified-ref-in-type-position"] = true
 			}
 			if strings.HasPrefix(string(t), "__cedar::") {
 				f["typeref:__cedar"] = true
@@ -1001,6 +1044,11 @@ func c17Features(s *ast.Schema) []string {
 		n := c17GetNS(s, nsName)
 		if nsName != "" {
 			f["namespace"] = true
+			for _, seg := range strings.Split(nsName, "::") {
+				if c := c17NsSegClass(seg); c != "" {
+					f["namespace-segment:"+c] = true
+				}
+			}
 			ann(n.Annotations)
 		}
 		for k, e := range n.Entities {
@@ -1247,11 +1295,30 @@ func c17ApplyEdit0(s *ast.Schema, e *c17editor) bool {
 			}
 			return true
 		}
+		if nsName != "" {
+			// replace one keyword-like segment of the namespace name by a plain one
+			segs := strings.Split(nsName, "::")
+			for i, seg := range segs {
+				if c17NsSegClass(seg) == "" {
+					continue
+				}
+				if e.hit() {
+					for j := 0; ; j++ {
+						segs[i] = fmt.Sprintf("Qs%d", j)
+						if _, clash := s.Namespaces[types.Path(strings.Join(segs, "::"))]; !clash {
+							break
+						}
+					}
+					c17RenameNS(s, nsName, strings.Join(segs, "::"))
+					return true
+				}
+			}
+		}
 		n := c17GetNS(s, nsName)
 		if nsName != "" {
 			n.Annotations = e.ann(n.Annotations)
 		}
-		if c17RenameHostile(e, s, &n) {
+		if c17RenameHostile(e, s, &n) || c17RenameHostileRef(e, s, nsName, &n) {
 			c17SetNS(s, nsName, n)
 			return true
 		}
@@ -1379,6 +1446,211 @@ func c17ApplyEdit0(s *ast.Schema, e *c17editor) bool {
 		}
 	}
 	return e.done
+}
+
+// c17RenameNS renames namespace old to fresh and rewrites every qualified
+// reference old::<base> (entity/common references and action parent types) accordingly.
+func c17RenameNS(s *ast.Schema, old, fresh string) {
+	s.Namespaces[types.Path(fresh)] = s.Namespaces[types.Path(old)]
+	delete(s.Namespaces, types.Path(old))
+	c17MapRefs(s, func(_ string, x string) string {
+		if rest, ok := strings.CutPrefix(x, old+"::"); ok && !strings.Contains(rest, "::") {
+			return fresh + "::" + rest
+		}
+		return x
+	})
+}
+
+// c17MapRefs rewrites every entity/common type reference and action parent type; f gets the
+// namespace the reference occurs in and its spelling.
+func c17MapRefs(s *ast.Schema, f func(fromNS, ref string) string) {
+	for _, nsName := range c17NSNames(s) {
+		re := func(x string) string { return f(nsName, x) }
+		var typ func(t ast.IsType) ast.IsType
+		typ = func(t ast.IsType) ast.IsType {
+			switch t := t.(type) {
+			case ast.EntityTypeRef:
+				return ast.EntityTypeRef(re(string(t)))
+			case ast.TypeRef:
+				return ast.TypeRef(re(string(t)))
+			case ast.SetType:
+				return ast.SetType{Element: typ(t.Element)}
+			case ast.RecordType:
+				for k, a := range t {
+					a.Type = typ(a.Type)
+					t[k] = a
+				}
+				return t
+			}
+			return t
+		}
+		refs := func(x []ast.EntityTypeRef) {
+			for i := range x {
+				x[i] = ast.EntityTypeRef(re(string(x[i])))
+			}
+		}
+		n := c17GetNS(s, nsName)
+		for k, c := range n.CommonTypes {
+			c.Type = typ(c.Type)
+			n.CommonTypes[k] = c
+		}
+		for k, e := range n.Entities {
+			refs(e.ParentTypes)
+			if e.Shape != nil {
+				typ(e.Shape)
+			}
+			if e.Tags != nil {
+				e.Tags = typ(e.Tags)
+			}
+			n.Entities[k] = e
+		}
+		for k, a := range n.Actions {
+			for i := range a.Parents {
+				if a.Parents[i].Type != "" {
+					a.Parents[i].Type = ast.EntityTypeRef(re(string(a.Parents[i].Type)))
+				}
+			}
+			if a.AppliesTo != nil {
+				refs(a.AppliesTo.Principals)
+				refs(a.AppliesTo.Resources)
+				if a.AppliesTo.Context != nil {
+					a.AppliesTo.Context = typ(a.AppliesTo.Context)
+				}
+			}
+			n.Actions[k] = a
+		}
+	}
+}
+
+// c17RenameHostileRef renames one *referenced* declaration whose name is a built-in type name or Set,
+// rewriting the references to it (qualified ones, unqualified ones from its own namespace and, for a
+// bare declaration, unqualified ones from everywhere: no namespaced declaration may shadow it).
+func c17RenameHostileRef(e *c17editor, s *ast.Schema, nsName string, n *ast.Namespace) bool {
+	var cands []types.Ident
+	for _, k := range c17Keys(n.CommonTypes) {
+		_, a := n.Entities[k]
+		_, b := n.Enums[k]
+		if c17HostileName(string(k)) && !a && !b {
+			cands = append(cands, k)
+		}
+	}
+	for _, k := range c17Keys(n.Entities) {
+		if _, c := n.CommonTypes[k]; c17HostileName(string(k)) && !c {
+			cands = append(cands, k)
+		}
+	}
+	for _, k := range c17Keys(n.Enums) {
+		if _, c := n.CommonTypes[k]; c17HostileName(string(k)) && !c {
+			cands = append(cands, k)
+		}
+	}
+	for _, k := range cands {
+		if !e.hit() {
+			continue
+		}
+		var fresh types.Ident
+		for i := 0; ; i++ {
+			fresh = types.Ident(fmt.Sprintf("Rr%d", i))
+			_, a := n.Entities[fresh]
+			_, b := n.Enums[fresh]
+			_, c := n.CommonTypes[fresh]
+			if !a && !b && !c && !c17Referenced(s, string(fresh)) {
+				break
+			}
+		}
+		if v, ok := n.CommonTypes[k]; ok {
+			n.CommonTypes[fresh] = v
+			delete(n.CommonTypes, k)
+		}
+		if v, ok := n.Entities[k]; ok {
+			n.Entities[fresh] = v
+			delete(n.Entities, k)
+		}
+		if v, ok := n.Enums[k]; ok {
+			n.Enums[fresh] = v
+			delete(n.Enums, k)
+		}
+		fqOld, fqNew := string(k), string(fresh)
+		if nsName != "" {
+			fqOld, fqNew = nsName+"::"+fqOld, nsName+"::"+fqNew
+		}
+		c17MapRefs(s, func(from, x string) string {
+			switch {
+			case strings.Contains(x, "::"):
+				if x == fqOld {
+					return fqNew
+				}
+			case x == string(k) && (from == nsName || nsName == ""):
+				return string(fresh)
+			}
+			return x
+		})
+		return true
+	}
+	return false
+}
+
+// c17Dangling: some qualified reference in type position names nothing that is declared. Resolve
+// does not notice that inside a common type nobody uses; the shrinker must not produce it.
+func c17Dangling(s *ast.Schema) bool {
+	declared := map[string]bool{}
+	for _, nsName := range c17NSNames(s) {
+		n := c17GetNS(s, nsName)
+		q := func(b string) string {
+			if nsName == "" {
+				return b
+			}
+			return nsName + "::" + b
+		}
+		for k := range n.Entities {
+			declared[q(string(k))] = true
+		}
+		for k := range n.Enums {
+			declared[q(string(k))] = true
+		}
+		for k := range n.CommonTypes {
+			declared[q(string(k))] = true
+		}
+	}
+	bad := false
+	var typ func(t ast.IsType)
+	chk := func(x string) {
+		if strings.Contains(x, "::") && !strings.HasPrefix(x, "__cedar::") && !declared[x] {
+			bad = true
+		}
+	}
+	typ = func(t ast.IsType) {
+		switch t := t.(type) {
+		case ast.EntityTypeRef:
+			chk(string(t))
+		case ast.TypeRef:
+			chk(string(t))
+		case ast.SetType:
+			typ(t.Element)
+		case ast.RecordType:
+			for _, a := range t {
+				typ(a.Type)
+			}
+		}
+	}
+	for _, nsName := range c17NSNames(s) {
+		n := c17GetNS(s, nsName)
+		for _, c := range n.CommonTypes {
+			typ(c.Type)
+		}
+		for _, e := range n.Entities {
+			if e.Shape != nil {
+				typ(e.Shape)
+			}
+			typ(e.Tags)
+		}
+		for _, a := range n.Actions {
+			if a.AppliesTo != nil {
+				typ(a.AppliesTo.Context)
+			}
+		}
+	}
+	return bad
 }
 
 // c17HostileName: declaration names that are themselves an input class of interest.
